@@ -7,11 +7,9 @@ Open Scope string_scope.
 (** The per-tx limit is checked as the model does: the call is journaled and counted first, then
     refused when the count exceeds the limit (so exactly [max_multistore_cache_count] calls pass). *)
 Theorem C04_limit_check_shape :
-  save_precompile_stmts =
-    ["_.Journal.append(journalChange)"; "_.multistoreCacheCount++";
-     "if _.multistoreCacheCount>maxMultistoreCacheCount {return error}"; "returnnil"]
-  /\ (0 < max_multistore_cache_count)%Z.
-Proof. vm_compute. split; [reflexivity | reflexivity]. Qed.
+  limit_relation = "count>limit" /\ limit_incr_before_check = true /\
+  limit_journaled_before_check = true /\ (0 < max_multistore_cache_count)%Z.
+Proof. vm_compute. repeat split; reflexivity. Qed.
 
 (** OnRunStart: snapshot, journal + count, flush — in this order. *)
 Theorem C04_on_run_start_order :
@@ -22,11 +20,6 @@ Proof. vm_compute. reflexivity. Qed.
 Theorem C04_every_precompile_uses_on_run_start :
   precompile_run_methods <> [] /\ forallb (fun p => snd p) precompile_run_methods = true.
 Proof. split; [discriminate | vm_compute; reflexivity]. Qed.
-
-(** Only StateDB.Commit is final; the commit to the cache context is not. *)
-Theorem C04_commit_final_flags :
-  commit_args = "_.GetEvmTxContext(),true" /\ commit_cache_ctx_args = "_.cacheCtx,false".
-Proof. vm_compute. split; reflexivity. Qed.
 
 (** The theorems instantiated with the limit found in /repo. *)
 Require Import Nib.C04.Model Nib.C04.Proofs Nib.C04.Property.
